@@ -87,7 +87,7 @@ def lake_build(targets=('GambitV', 'driver')) -> tuple[bool, str, list[str]]:
 
 def theorem_names(lean_file: Path, namespace: str) -> list[str]:
 	text = _strip_comments(lean_file.read_text())
-	return [f'{namespace}.{m}' for m in re.findall(r'^\s*theorem\s+([A-Za-z_][\w\']*)', text, flags=re.M)]
+	return [f'{namespace}.{m}' for m in re.findall(r'^\s*(?:private\s+|protected\s+)?theorem\s+([A-Za-z_][\w\'?!]*)', text, flags=re.M)]
 
 
 def audit_axioms(modules_and_ns: list[tuple[str, str]]) -> dict:
@@ -113,9 +113,9 @@ def audit_axioms(modules_and_ns: list[tuple[str, str]]) -> dict:
 		tmp.unlink(missing_ok=True)
 	out = r.stdout + r.stderr
 	res = {}
-	for m in re.finditer(r"'([^']+)' depends on axioms: \[([^\]]*)\]", out, flags=re.S):
+	for m in re.finditer(r"^'(\S+)' depends on axioms: \[([^\]]*)\]", out, flags=re.S | re.M):
 		res[m.group(1)] = [a.strip() for a in m.group(2).replace('\n', ' ').split(',') if a.strip()]
-	for m in re.finditer(r"'([^']+)' does not depend on any axioms", out):
+	for m in re.finditer(r"^'(\S+)' does not depend on any axioms", out, flags=re.M):
 		res[m.group(1)] = []
 	bad = [n for n, ax in res.items() if not set(ax) <= ALLOWED_AXIOMS]
 	missing = [n for n in names if n not in res]
